@@ -5,6 +5,7 @@ from __future__ import annotations
 import ast
 from typing import Dict, List, Optional, Set, Tuple
 
+from oqv import abseval as ae
 from oqv.astutil import branch_context, call_name, method_call, bind_args
 from oqv.cfg import CFG
 from oqv.dataflow import DefUse, Def
@@ -126,8 +127,133 @@ def _call_kind(prog: Program, u: Unit, call: ast.AST) -> Optional[str]:
     return None
 
 
+def _product_operands(e: ast.AST) -> Optional[List[ast.AST]]:
+    """[left, right] of a matrix product of two superoperators
+    (`A @ B`, np.dot(A, B) / np.matmul(A, B), A.dot(B))."""
+    if isinstance(e, ast.BinOp) and isinstance(e.op, ast.MatMult):
+        return [e.left, e.right]
+    if isinstance(e, ast.Call) and not e.keywords and isinstance(e.func, ast.Attribute) \
+            and e.func.attr in ("dot", "matmul"):
+        if dotted(e.func.value) in ("np", "numpy"):
+            return [e.args[0], e.args[1]] if len(e.args) == 2 else None
+        return [e.func.value, e.args[0]] if len(e.args) == 1 else None
+    return None
+
+
+def _atomic_facts(t: ast.AST, outcome: bool) -> List[Tuple[ast.AST, bool]]:
+    """Atomic conditions implied by test t having the given outcome."""
+    if isinstance(t, ast.UnaryOp) and isinstance(t.op, ast.Not):
+        return _atomic_facts(t.operand, not outcome)
+    if isinstance(t, ast.BoolOp):
+        if isinstance(t.op, ast.And) and outcome:
+            return [f for v in t.values for f in _atomic_facts(v, True)]
+        if isinstance(t.op, ast.Or) and not outcome:
+            return [f for v in t.values for f in _atomic_facts(v, False)]
+        return []
+    return [(t, outcome)]
+
+
+_ORDERINGS = {ast.Lt: {"lt"}, ast.LtE: {"lt", "eq"}, ast.Gt: {"gt"}, ast.GtE: {"gt", "eq"},
+              ast.Eq: {"eq"}, ast.NotEq: {"lt", "gt"}}
+
+
+def _orderings(e: ast.AST, a: str, b: str) -> Optional[Set[str]]:
+    """Set of orderings of (a, b) that satisfy comparison e, if e compares exactly a and b."""
+    if not (isinstance(e, ast.Compare) and len(e.ops) == 1 and type(e.ops[0]) in _ORDERINGS):
+        return None
+    l_, r_ = norm(e.left), norm(e.comparators[0])
+    sat = set(_ORDERINGS[type(e.ops[0])])
+    if (l_, r_) == (a, b):
+        return sat
+    if (l_, r_) == (b, a):
+        return {{"lt": "gt", "gt": "lt", "eq": "eq"}[x] for x in sat}
+    return None
+
+
+def fact_decider(du: DefUse, facts: List[Tuple[ast.AST, bool]], at: int):
+    """Decide branch tests from conditions known to hold at node `at` (same normalised
+    expression, its negation, or an order comparison of the same two operands), as long as
+    every name in the condition still has the definitions it had at `at`."""
+    def same_versions(f: ast.AST, nid: int) -> bool:
+        for x in ast.walk(f):
+            if isinstance(x, ast.Name) and isinstance(x.ctx, ast.Load):
+                if {d.id for d in du.reaching(nid, x.id)} != {d.id for d in du.reaching(at, x.id)}:
+                    return False
+        return True
+
+    def decide(nid: int, e: ast.AST) -> Optional[bool]:
+        for (f, tv) in facts:
+            if not same_versions(f, nid):
+                continue
+            if norm(e) == norm(f):
+                return tv
+            if isinstance(f, ast.Compare) and len(f.ops) == 1 and isinstance(e, ast.Compare):
+                a, b = norm(f.left), norm(f.comparators[0])
+                if isinstance(f.ops[0], (ast.Is, ast.IsNot)) and len(e.ops) == 1 and \
+                        isinstance(e.ops[0], (ast.Is, ast.IsNot)) and \
+                        (norm(e.left), norm(e.comparators[0])) == (a, b):
+                    same = type(e.ops[0]) is type(f.ops[0])
+                    return tv if same else (not tv)
+                known = _orderings(f, a, b)
+                asked = _orderings(e, a, b)
+                if known is not None and asked is not None:
+                    possible = known if tv else ({"lt", "eq", "gt"} - known)
+                    if possible <= asked:
+                        return True
+                    if not (possible & asked):
+                        return False
+        return None
+    return decide
+
+
+def superop_roles(prog: Program, u: Unit, du: DefUse, nid: int, arg: ast.AST,
+                  prop_names: Set[str], depth: int = 0):
+    """Roles of the superoperator `arg` at node nid, one entry per way it can have been made:
+    [(roles in order of application, defining node or None)], or None if some reaching
+    definition is neither a control, a propagator, None nor a product of such.  A product
+    `A @ B` applies B first."""
+    if depth > 4:
+        return None
+    ops = _product_operands(arg)
+    if ops is not None:
+        left = superop_roles(prog, u, du, nid, ops[0], prop_names, depth + 1)
+        right = superop_roles(prog, u, du, nid, ops[1], prop_names, depth + 1)
+        if left is None or right is None:
+            return None
+        return [(r_ + l_, None) for (l_, _) in left for (r_, _) in right]
+    if isinstance(arg, ast.Constant) and arg.value is None:
+        return [((), None)]
+    if isinstance(arg, ast.Name):
+        out = []
+        for d in du.reaching(nid, arg.id):
+            if d.value is None:
+                return None
+            if _product_operands(d.value) is not None and not d.sel:
+                sub = superop_roles(prog, u, du, d.node, d.value, prop_names, depth + 1)
+                if sub is None:
+                    return None
+                out += [(roles, d.node) for (roles, _) in sub]
+                continue
+            if isinstance(d.value, ast.Constant) and d.value.value is None and not d.sel:
+                out.append(((), d.node))
+                continue
+            if isinstance(d.value, ast.Name) and not d.sel and d.node != nid:
+                sub = superop_roles(prog, u, du, d.node, d.value, prop_names, depth + 1)
+                if sub is None:
+                    return None
+                out += sub
+                continue
+            r = classify_superop_arg(prog, u, du, nid, arg, prop_names, only_def=d)
+            if r is None:
+                return None
+            out.append(((r,), None))
+        return out
+    r = classify_superop_arg(prog, u, du, nid, arg, prop_names)
+    return None if r is None else [((r,), None)]
+
+
 def classify_superop_arg(prog: Program, u: Unit, du: DefUse, nid: int, arg: ast.AST,
-                         prop_names: Set[str]) -> Optional[str]:
+                         prop_names: Set[str], only_def=None) -> Optional[str]:
     """Role of the superoperator handed to _apply_system_superoperator."""
     transposed = False
     while isinstance(arg, ast.Attribute) and arg.attr == "T":
@@ -144,7 +270,7 @@ def classify_superop_arg(prog: Program, u: Unit, du: DefUse, nid: int, arg: ast.
                 if role:
                     return role
     roles = set()
-    for d in du.reaching(nid, arg.id):
+    for d in ([only_def] if only_def is not None else du.reaching(nid, arg.id)):
         if d.value is None:
             return None
         idx = [s[1] for s in d.sel if s[0] == "idx"]
@@ -204,7 +330,10 @@ def _is_prop_comp(v: ast.ListComp, prop_names: Set[str], du: DefUse, nid: int) -
     return gen.iter.id in prop_names
 
 
-def stepper_events(prog: Program, u: Unit, du: DefUse) -> Dict[int, str]:
+def stepper_events(prog: Program, u: Unit, du: DefUse,
+                   composite: Optional[list] = None) -> Dict[int, str]:
+    """node -> event.  `composite` (if given) receives (node, role, defining node, roles in
+    order of application) for superoperators made as products of controls / propagators."""
     g = du.cfg
     # names bound to get_propagators(...) results (closures or lists of them)
     prop_names: Set[str] = set()
@@ -226,9 +355,20 @@ def stepper_events(prog: Program, u: Unit, du: DefUse) -> Dict[int, str]:
                     raise AnalysisError(f"O2: unexpected call shape at {u.loc(c)}")
                 role = classify_superop_arg(prog, u, du, n.id, c.args[2], prop_names)
                 if role is None:
-                    raise AnalysisError(
-                        f"O2: cannot classify the superoperator `{norm(c.args[2])}` applied at "
-                        f"{u.loc(c)} (neither control nor propagator by provenance)")
+                    ways = superop_roles(prog, u, du, n.id, c.args[2], prop_names)
+                    if ways is None or not any(r for (r, _) in ways):
+                        raise AnalysisError(
+                            f"O2: cannot classify the superoperator `{norm(c.args[2])}` applied "
+                            f"at {u.loc(c)} (neither control nor propagator by provenance)")
+                    # the role every way of making it agrees on first; the others are
+                    # conditional on the definition that fuses them in
+                    firsts = {r[0] for (r, _) in ways if r}
+                    role = sorted(firsts, key=ORDER.index)[0]
+                    for (r, dnode) in ways:
+                        for k in r:
+                            if k != role or len(r) > 1:
+                                if composite is not None:
+                                    composite.append((n.id, k, dnode, r))
                 events[n.id] = role
             elif fn == "_apply_pt_mpos":
                 events[n.id] = "ENV"
@@ -295,6 +435,49 @@ def check_stepper_order(chk: Check, u: Unit, g: CFG, events: Dict[int, str],
                     "" if bad is None else f"{k} control is applied twice in one step")
 
 
+def _check_composite(chk: Check, u: Unit, du: DefUse, ev: Dict[int, str], composite: list) -> None:
+    """Superoperators made as products of controls / propagators (fused before they are
+    applied): inside the product the factors act in the order of the cycle, and each fused-in
+    role obeys the order rule along the paths that are feasible under the conditions of the
+    statement that fused it in."""
+    g = du.cfg
+    seen = set()
+    for (nid, role, dnode, roles) in composite:
+        if (nid, role, dnode) in seen:
+            continue
+        seen.add((nid, role, dnode))
+        idx = [ORDER.index(k) for k in roles]
+        inner_ok = idx == sorted(idx) and len(set(idx)) == len(idx)
+        chk.add("O2", u, f"fused superoperator {' then '.join(roles)}", inner_ok,
+                "factors act in the order of the step cycle" if inner_ok else
+                f"inside the product the factors act as {' then '.join(roles)}, the step cycle "
+                f"is {' -> '.join(ORDER)}", g.nodes[nid].ast)
+        facts: List[Tuple[ast.AST, bool]] = []
+        if dnode is not None:
+            for (t, br) in branch_context(u.node, g.nodes[dnode].ast):
+                facts += _atomic_facts(t, br)
+        decide = fact_decider(du, facts, dnode if dnode is not None else nid)
+
+        def lookup(n_, e, decide=decide):
+            r = decide(n_, e)
+            return ae.UNKNOWN if r is None else r
+        feas = ae.feasible_edges(g, lookup)
+        edge_ok = lambda a, b, l, feas=feas: l != "loop" and feas(a, b, l)
+        why = " and ".join(f"{norm(t)} is {tv}" for (t, tv) in facts) or "unconditionally"
+        for earlier in ORDER[:ORDER.index(role)]:
+            targets = {n for n, k in ev.items() if k == earlier and n != nid}
+            if not targets:
+                continue
+            starts = [b for (b, l) in g.succ[nid] if edge_ok(nid, b, l)]
+            p = g.find_path(starts, lambda x: x in targets, edge_ok=edge_ok)
+            chk.add("O2", u, f"{earlier} before fused-in {role}", p is None,
+                    f"no feasible path ({why})" if p is None else
+                    f"the {role} factor fused into the superoperator applied here ({why}) can be "
+                    f"followed by {earlier} within the same step: it acts on the wrong side",
+                    g.nodes[nid].ast,
+                    path=None if p is None else g.describe_path([nid] + p, u.loc)[:10])
+
+
 def _pre_before_final_record(chk: Check, u: Unit, du: DefUse, ev: Dict[int, str]) -> None:
     """The state recorded after the loop (last step) is preceded, in the same
     iteration, by the pre-measurement control of that step."""
@@ -341,12 +524,14 @@ def o2(prog: Program, chk: Check) -> None:
         u = prog.unit(q)
         du = DefUse(u, CFG(u.node, exc_edges=False))
         chk.saw(u, du.cfg)
-        ev = stepper_events(prog, u, du)
+        composite: list = []
+        ev = stepper_events(prog, u, du, composite)
         if q.startswith("gradient"):
             # forward pass only: events before the first reversed() loop
             ev = _forward_only(du.cfg, ev)
         check_stepper_order(chk, u, du.cfg, ev)
         _pre_before_final_record(chk, u, du, ev)
+        _check_composite(chk, u, du, ev, composite)
     # PT-TEBD
     cyc = ["PRE", "RECORD", "POST", "INC", "PROP"]
     for q in ("pt_tebd:PtTebd.initialize", "pt_tebd:PtTebd.compute_step"):
